@@ -87,6 +87,23 @@ Theorem C22_monotone_duration : forall latest p d' l j,
   nth_error (spec_keep latest (mkPol (p_counts p) d' (p_withins p) (p_tags p)) l) j = Some true.
 Proof. intros latest p d' l j H1 H2. apply implb_list_nth, spec_keep_mono_within; assumption. Qed.
 
+(* the civil-date model is consistent: days_from_civil inverts civil, months and days in range *)
+Theorem C22_civil_inverse : forall z,
+  days_from_civil (fst (fst (civil z))) (snd (fst (civil z))) (snd (civil z)) = z
+  /\ 1 <= snd (fst (civil z)) <= 12 /\ 1 <= snd (civil z) <= 31.
+Proof. exact DurMono.civil_inverse. Qed.
+
+(* lengthening keep-within-hourly/.../yearly durations never drops a kept snapshot: on the
+   newest-first list the window is a prefix and the run heads inside the old window are unchanged *)
+Theorem C22_monotone_within_period_durations : forall latest p ds' l j,
+  sorted_desc l = true ->
+  Forall2 (fun d d' => DurMono.le_dur d d' /\ DurMono.dur_nonneg d) (p_withins p) ds' ->
+  nth_error (spec_keep latest p l) j = Some true ->
+  nth_error (spec_keep latest (mkPol (p_counts p) (p_within p) ds' (p_tags p)) l) j = Some true.
+Proof. intros latest p ds' l j H1 H2. apply implb_list_nth, spec_keep_mono_withins; assumption. Qed.
+
+Print Assumptions C22_monotone_within_period_durations.
+Print Assumptions C22_civil_inverse.
 Print Assumptions C22_threshold_monotone.
 Print Assumptions C22_monotone_duration.
 Print Assumptions C22_keep_is_union_of_rules.
